@@ -282,7 +282,11 @@ class CallStack(deque):
         while self.refstack:
             if self.refstack[-1][0] == self.counter:
                 _, ref = self.refstack.pop()
-                cells.model.refgraph.add_edge(ref, node)
+                if cells.is_cached:
+                    cells.model.refgraph.add_edge(ref, node)
+                else:
+                    # Uncached cells are in the trace graph as object nodes
+                    cells.model.refgraph.add_edge(ref, (cells,))
             else:
                 break
 
